@@ -11,7 +11,7 @@ ID = 'C13'
 LEVEL = 'exploration'
 RULE = ('case = (content kind in {raw body, urlencoded form, JSON, multipart text fields, multipart file part, multipart part with an empty file name, small multipart form followed by an epilogue / preceded by a preamble of S bytes}, max_body_size M in {None, 1, 20, 100, 1000} '
         'or generated, max_memfile_size B in {1, 8, 33, 64, 256, 4096} (>= 8 for chunked framing: the size-line scanner is bounded by the buffer), body size S '
-        'placed at 0, 1, M-1, M, M+1, M+B-1, M+B, M+B+1, 3M, B-1, B, B+1, 2B.. or generated, framing = Content-Length or chunked (optionally with an additional Content-Length header, which the transfer coding overrides) with chunk sizes 1, 3, B, >B, '
+        'placed at 0, 1, M-1, M, M+1, M+B-1, M+B, M+B+1, 3M, B-1, B, B+1, 2B.. or generated, framing = Content-Length or chunked (optionally with an additional Content-Length header, which the transfer coding overrides) with chunk sizes 1, 3, B, >B, a trailer section of 0-40000 lines after the last chunk (the stream may be pulled at most limit + one buffer beyond the end of the body), a chunk-size line with a minus sign in front of any chunk (an over-limit body must still be refused), '
         'one huge chunk, read fragmentation caps). Oracle from a recording wsgi.input: S > M => 413 and the payload bytes handed out by the stream <= M + B '
         '(chunk framing bytes mapped back to payload offsets); S <= M => raw body accepted and byte-identical; accepted raw body with S > B => Request.body '
         'is a real file (not BytesIO, fileno() works) with identical content; urlencoded / JSON text > B and multipart header+text bytes > B => refused with '
@@ -139,7 +139,17 @@ def check_case(ctx, case):
     headers = {'Content-Type': ctype}
     layout = None
     if case['chunks'] is not None:
-        wire, layout = encode_chunked(body, case['chunks'])
+        ntrail = case.get('trailer_lines') or 0
+        wire, layout = encode_chunked(body, case['chunks'], trailers=['X-T%d: v' % j for j in range(ntrail)])
+        if case.get('neg_line'):
+            # a size line with a minus sign (an "empty chunk" that int(x, 16) would read as a negative number) in front of the j-th chunk
+            j, val = case['neg_line']
+            sizes_at = [s_ for k_, s_, e_ in layout if k_ in ('size', 'last')]
+            at = sizes_at[j % len(sizes_at)]
+            ins = b'-%x\r\n\r\n' % val
+            wire = wire[:at] + ins + wire[at:]
+            layout = [(k_, s_ + (len(ins) if s_ >= at else 0), e_ + (len(ins) if s_ >= at else 0)) for k_, s_, e_ in layout]
+        last_end = [e_ for k_, s_, e_ in layout if k_ == 'last'][0]
         longest = max(e - s for k, s, e in layout if k in ('size', 'last'))
         if longest > B:
             ctx.exclude('size_line_longer_than_buffer')
@@ -183,6 +193,20 @@ def check_case(ctx, case):
         raise CheckFailure(f'{what}: exception escaped {fmt_exc(r.escaped)}')
     consumed = payload_consumed(layout, stream.pos) if layout else min(stream.pos, total)
     over = M is not None and total > M
+    if layout and M is not None and stream.pos > last_end + M + B:
+        raise CheckFailure(f'{what}: {stream.pos} bytes were pulled from the stream; the chunked body ends at wire offset {last_end} and max_body_size + one buffer is {M + B} '
+                           f'(a trailer section of {case.get("trailer_lines") or 0} lines follows)')
+    if case.get('neg_line'):
+        ctx.count('negative_size_line_inserted')
+        if over:
+            if r.code == 200 or seen.get('done'):
+                raise CheckFailure(f'{what}: a body of {total} bytes over max_body_size was accepted ({r.status!r}) with a negative chunk-size line {case["neg_line"]} in the coding')
+            if consumed > M + B:
+                raise CheckFailure(f'{what}: {consumed} payload bytes were read with a negative chunk-size line {case["neg_line"]} in the coding; limit + one buffer = {M + B}')
+        elif r.code != 200 and not (400 <= (r.code or 0) < 500):
+            raise CheckFailure(f'{what}: status {r.status!r} with a negative chunk-size line in the coding')
+        ctx.nontrivial(case)
+        return
     if over:
         if r.code != 413:
             raise CheckFailure(f'{what}: body exceeds max_body_size but the answer is {r.status!r}')
@@ -302,6 +326,9 @@ def case_st(draw):
                                         st.lists(st.integers(1, 3 * B), min_size=1, max_size=6)))
         if case['chunks'] == [1] or case['chunks'] == [3]:
             case['chunks'] = case['chunks'] * 4000
+        case['trailer_lines'] = draw(st.sampled_from([0, 0, 0, 1, 3, 60, 5000]))
+        if draw(st.integers(0, 5)) == 0:
+            case['neg_line'] = [draw(st.integers(0, 6)), draw(st.sampled_from([1, 16, 0x2710, 10**6]))]
     return case
 
 
@@ -328,6 +355,16 @@ def run(ctx):
                             if chunks is not None and kind == 'raw':
                                 for cl in ('zero', 'limit', 'small'):
                                     ctx.guarded(check_case, {'kind': kind, 'S': S, 'M': M, 'B': B, 'nparts': 1, 'chunks': chunks, 'pattern': [], 'cl_with_chunked': cl})
+        # chunked bodies within and over the limit followed by trailer sections of 0 .. 40000 short lines; negative size lines in front of every chunk
+        for M in (100, 1000):
+            for S in (10, M, M + 1, 10 * M):
+                for B in (64, 256):
+                    for tl in (0, 2, 500, 40000):
+                        ctx.guarded(check_case, {'kind': 'raw', 'S': S, 'M': M, 'B': B, 'nparts': 1, 'chunks': [33], 'pattern': [], 'trailer_lines': tl})
+                    for j in (0, 1, 2, 5):
+                        for val in (1, 0x2710, 0xfffff):
+                            ctx.guarded(check_case, {'kind': 'raw', 'S': S, 'M': M, 'B': B, 'nparts': 1, 'chunks': [50] * 300, 'pattern': [], 'neg_line': [j, val]})
+        ctx.count('trailer_and_negative_size_grid')
         for S in (9, 65, 300):
             for chunks in (None, [7]):
                 ctx.guarded(check_case, {'kind': 'raw', 'S': S, 'M': None, 'B': 8, 'nparts': 1, 'chunks': chunks, 'pattern': [], 'tempdir_broken': True})
